@@ -1084,19 +1084,22 @@ func c12GenSchedWheel(r *verifh.Rng) verifh.Section {
 			}
 		case x < 62 && len(armed) == 0:
 			// Drain with more held callbacks than drainWorkers; new timers and a second Drain meanwhile
-			m := r.Pick(3, 8, 9, 12)
+			// (all of them held: the hand-off goroutine is blocked in Schedule with tasks left over when the second,
+			// possibly larger, Drain collects its own)
+			m := r.Pick(3, 8, 9, 12, 14)
+			all := r.Bool()
 			for i := 0; i < m; i++ {
 				ops = append(ops, fmt.Sprintf("set %d %d %d", 100+i, r.Intn(1000), d(2*n+2)))
-				if r.Chance(3, 4) {
+				if all || r.Chance(3, 4) {
 					ops = append(ops, fmt.Sprintf("hold %d", 100+i))
 					armed = append(armed, 100+i)
 				}
 			}
 			ops = append(ops, "drain")
-			for i := r.Range(0, 3); i > 0; i-- {
-				set(r.Intn(nkeys), 2)
+			for i := r.Pick(0, 1, 3, 10, 13, 16); i > 0; i-- {
+				ops = append(ops, fmt.Sprintf("set %d %d %d", 300+i, r.Intn(1000), d(2*n+2)))
 			}
-			ops = append(ops, r.PickS("drain", "tick", "tick"))
+			ops = append(ops, r.PickS("drain", "drain", "tick"))
 			release()
 		case x < 66 && len(armed) > 0:
 			release()
